@@ -20,10 +20,63 @@ pub mod traits {
     pub trait TwinB {
         fn get<T: core::fmt::Debug + Copy + 'static>(&self, x: T) -> u32;
     }
+
+    /// A generic method with a default body, and one with a real function.
+    #[unimock(api = GenFallbackMock, unmock_with = [_, real_gen])]
+    pub trait GenFallback {
+        fn with_body<T: core::fmt::Debug + Copy + 'static>(&self, x: T) -> u32 {
+            let _ = x;
+            77
+        }
+        fn with_real<T: core::fmt::Debug + Copy + 'static>(&self, x: T) -> u32;
+    }
+
+    pub fn real_gen<T: core::fmt::Debug + Copy + 'static>(_: &impl core::any::Any, _: T) -> u32 {
+        88
+    }
+}
+
+/// A clause for one instantiation of a generic method says nothing about another instantiation:
+/// that one still runs its default body / its real function (partial mock) / fails as unmentioned.
+fn fallback_cells(ctx: &Ctx, stats: &mut Stats, key: &str) {
+    use traits::*;
+    let mut cell = |name: &str, got: Result<u32, String>, want: Result<u32, &str>| {
+        ctx.tick();
+        stats.add("e_cells", 1);
+        stats.add("transitions", 1);
+        stats.add("traces_validated_against_impl", 1);
+        let ok = match (&got, &want) {
+            (Ok(g), Ok(w)) => g == w,
+            (Err(msg), Err(needle)) => msg.contains(needle),
+            _ => false,
+        };
+        if !ok {
+            ctx.violation(key, &format!("generic-fallback/{name}: expected {want:?}, observed {got:?}"), J::obj().set("relation", "e").set("label", name));
+        }
+    };
+    for partial in [false, true] {
+        let new = |c: unimock::verif::DynClause| if partial { Unimock::new_partial(c) } else { Unimock::new(c) }.no_verify_in_drop();
+        let mode = if partial { "partial" } else { "strict" };
+        let mut c = unimock::verif::DynClause::new();
+        c.push(GenFallbackMock::with_body.with_types::<u8>().each_call(matching!(_)).returns(1u32));
+        let u = new(c);
+        cell(&format!("{mode}/with_body::<u8> configured, called"), catch(|| u.with_body(0u8)), Ok(1));
+        cell(&format!("{mode}/with_body::<u8> configured, ::<u16> called (default body)"), catch(|| u.with_body(0u16)), Ok(77));
+        let mut c = unimock::verif::DynClause::new();
+        c.push(GenFallbackMock::with_real.with_types::<u8>().each_call(matching!(_)).returns(2u32));
+        let u = new(c);
+        cell(&format!("{mode}/with_real::<u8> configured, called"), catch(|| u.with_real(0u8)), Ok(2));
+        cell(
+            &format!("{mode}/with_real::<u8> configured, ::<u16> called"),
+            catch(|| u.with_real(0u16)),
+            if partial { Ok(88) } else { Err("GenFallback::with_real(0): No mock implementation found") },
+        );
+    }
 }
 
 pub fn cells(ctx: &Ctx, stats: &mut Stats, key: &str) {
     use traits::*;
+    fallback_cells(ctx, stats, key);
     // which of the three methods (A::get::<u8>, B::get::<u8>, A::get::<u16>) are configured, in which
     // clause order, ordered or unordered; then every call sequence of length 2 over the three
     let orders: [[usize; 3]; 6] = [[0, 1, 2], [0, 2, 1], [1, 0, 2], [1, 2, 0], [2, 0, 1], [2, 1, 0]];
